@@ -14,6 +14,7 @@ TEXT = {
     "V1": "subroutine a\n real :: sin\n x = sin(1.0)\nend subroutine a\n",
     "V2": "module m\n integer :: k\nend module m\nprogram p\n use m\n if (k > 0) then\n   k = abs(k)\n end if\nend program p\n",
     "V3": "x = 1\nend\n",
+    "V4": "program o\n open(unit=10, file='f.dat', status='old')\n allocate(w(2), stat=ierr)\n write(10, *) x\n stop 1\nend program o\n",
     "I1": "subroutine a\n real :: cos\n @@ bad\nend subroutine a\n",
     "I2": "subroutine a\n real :: cos\n if (x) then\n end if wrong\nend subroutine a\n",
     "I3": "real :: cos\nx = 1\nif (x > 0) then\nend if wrong\nend\n",
@@ -51,7 +52,7 @@ def session(case):
     return {"id": case["id"], "steps": steps}
 
 
-UNITS = {"V1": {"a"}, "V2": {"m", "p"}, "V3": {"fparser2:main_program"}}
+UNITS = {"V1": {"a"}, "V2": {"m", "p"}, "V3": {"fparser2:main_program"}, "V4": {"o"}}
 
 
 def failing_traces(case):
